@@ -10,6 +10,13 @@ T = {
  "C05": ("Static analysis of /repo's SSA: the safety half (no EXPUNGE can be produced while answering FETCH/STORE/SEARCH) is decided for every path: constant propagation of permitExpunge through every wrapper reachable from the three handlers and the dispatch path, the hold-back logic of popResponders evaluated under permitExpunge=false, who-may-call Responder.handle, [EXPUNGEISSUED] dominance, and must-pass-through of a permitting flush in the commands that have to announce removals. Structural necessary conditions, exhaustive over the source; not a behavioural model.",
          "Trusts go/types + go/ssa, the VTA call graph, and that response.Merge keeps order. Does not decide what the snapshot mutators compute.",
          "constant-argument propagation over the call graph + dominator/must-pass-through rules on SSA", "DESIGN.md 4/C05"),
+
+ "C06": ("Static analysis: update.Done is called exactly once on every path of user.apply with the error that is returned and nowhere else; the update loop continues after an error; the type switch covers every imap.Update implementer; every SQL statement below user.apply is parsed by SQLite against the migrated schema and arity-checked; every add-to-mailbox on an update path is justified by a membership query on all paths (idempotent re-delivery) or a fresh id; recovery-mailbox comparison precedes writes. Structural necessary conditions; 'produces exactly the change it describes' is not decided.",
+         "Trusts go/ssa, the VTA call graph, SQLite's parser; value-level effects of each update kind are not modelled.",
+         "must-pass-through/exactly-once path rule + exhaustiveness over go/types method sets + embedded-SQL validation + value-flow justification of inserts", "DESIGN.md 4/C06"),
+ "C08": ("Static analysis of the embedded SQL: every statement site (145 evaluations incl. migrations, parameters bound per call site) is extracted symbolically, instantiated and parsed by SQLite against the schema obtained by executing only the migrations' DDL in order; placeholder counts and bound-argument lengths are compared as polynomials over len() atoms (catches mis-bound batches that go-sqlite3 silently accepts); chunk discipline and the variable limit; Scan arity vs result columns; *sql.Tx typestate in wrapTx (exactly one Commit/Rollback, Commit only on nil, rollback on panic, no escape); tracer sibling agreement; rows.Err typestate. Decides that each statement is well-formed and binds what it declares for every batch size; it does not decide result equivalence with a relational model.",
+         "Trusts go/ssa, SQLite 3.45 parser from go-sqlite3, the assumption that flag sets hold <= 16 flags, and that access paths are not reassigned between the query construction and its use.",
+         "symbolic extraction of embedded SQL + polynomial arity comparison + SQLite-as-parser + typestate rules on SSA", "DESIGN.md 4/C08"),
 }
 NA_REASON = {}
 checks = []
